@@ -346,7 +346,8 @@ func knownC39(rec *evid.Rec, msg string, src []byte, o Options, info c39Info) st
 		}
 	}
 	if strings.HasPrefix(msg, "formatter is not idempotent") && rec.Known("FS30") && len(srcgen.ScanComments(info.out)) > 0 &&
-		codeOnly(info.out) == codeOnly(info.out2) && diffMultiset(commentMultiset(info.out), commentMultiset(info.out2)) == "" {
+		codeOnly(info.out) == codeOnly(info.out2) &&
+		(diffMultiset(commentMultiset(info.out), commentMultiset(info.out2)) == "" || explainCommentChange(rec, info.out, info.out2) != "") {
 		// FS30: comment placement is not stable: a comment that the first pass moved (e.g. hoisted in front of an argument list, or
 		// several comments joined on one line) is attached to a different node by the second pass. Predicate: the two outputs have
 		// the same comments and, with comments and whitespace removed, the same text.
@@ -505,11 +506,14 @@ func lastFormatError(src []byte, o Options) string {
 
 // codeOnly removes the comments and all whitespace.
 func codeOnly(src []byte) string {
-	t := string(src)
-	for _, c := range srcgen.ScanComments(src) {
-		t = strings.Replace(t, c, "", 1)
+	var sb strings.Builder
+	pos := 0
+	for _, c := range srcgen.ScanCommentsDetailed(src) { // by offset: the same text may also occur inside a string literal
+		sb.Write(src[pos:c.Offset])
+		pos = c.Offset + len(c.Text)
 	}
-	return strings.Join(strings.Fields(t), "")
+	sb.Write(src[pos:])
+	return strings.Join(strings.Fields(sb.String()), "")
 }
 
 // hasMultiCommentLine reports whether a line of the text consists of two or more comments and nothing else.
